@@ -10,7 +10,7 @@ import (
 func init() {
 	register(&Property{
 		ID:          "C03",
-		Explanation: "Decides structural necessary conditions of election safety: every writer of raft.term/vote/state is one of the classified shapes (reset on term change, guarded grant, self-vote after term+1, load at launch, become* family); the vote grant is guarded by can-grant AND log-up-to-date and the can-grant predicate reads the stored vote; leadership is assumed only under a quorum comparison of the vote tally (or single-node quorum); non-voting vote responses are dropped before the tally; no campaign while a committed config change is unapplied; response messages from unknown senders are dropped. Does not decide at-most-one-leader over schedules.",
+		Explanation: "Decides structural necessary conditions of election safety: every writer of raft.term/vote/state is one of the classified shapes (reset on term change, guarded grant, self-vote after term+1, load at launch, become* family); the vote grant is guarded by can-grant AND log-up-to-date and the can-grant predicate reads the stored vote; leadership is assumed only under a quorum comparison of the vote tally (or single-node quorum); non-voting vote responses are dropped before the tally; no campaign while a committed config change is unapplied; response messages from unknown senders are dropped. Does not decide at-most-one-leader over schedules. A network message reaches a node only when addressed to its replica id; progress-on-acknowledgement and fsync-accumulator rules are borrowed.",
 		NotCovered:  "election safety over message schedules; vote durability across restart (C04/C10 clauses)",
 		Run:         runC03,
 	})
